@@ -355,3 +355,90 @@ Proof.
   split; [exact Gh1|]. split; [exact Gh2|]. split; [exact Gw1|]. split; [exact Gw2|].
   split; [reflexivity|]. split; [unfold stripe_box_ok; cbn; lia|]. vm_compute. reflexivity.
 Qed.
+
+(* ---------- EXPLICIT padding (a PAD operator fused into the consumer) ---------- *)
+Lemma mod_neq' a b s : 0 < a - b < s -> a mod s <> b mod s.
+Proof.
+  intros H E.
+  assert (Hd : (a - b) mod s = 0) by (rewrite Zminus_mod, E, Z.sub_diag; apply Z.mod_0_l; lia).
+  apply Z.mod_divide in Hd; [|lia]. destruct Hd as [q Hq].
+  assert (Hq2 : 0 < q * s < s) by lia.
+  destruct (Z.le_gt_cases q 0) as [Hq0|Hq0].
+  - assert (q * s <= 0) by (apply Z.mul_nonpos_nonneg; lia). lia.
+  - assert (1 * s <= q * s) by (apply Z.mul_le_mono_nonneg_r; lia). lia.
+Qed.
+
+(* the while loop of calc_explicit_padding: the largest value <= pad_after that is 0 or congruent to the target *)
+Lemma explicit_after_spec s tmb : 0 < s -> forall fuel opa, 0 <= opa -> (Z.to_nat opa <= fuel)%nat ->
+  let r := explicit_after fuel opa s tmb in
+  0 <= r <= opa /\ (r = 0 \/ r mod s = tmb mod s) /\ (forall v, r < v <= opa -> v mod s <> tmb mod s).
+Proof.
+  intros Hs. induction fuel as [|fuel IH]; intros opa H0 Hf.
+  - cbn. assert (opa = 0) by lia. subst. repeat split; try lia; try (left; reflexivity).
+  - cbn [explicit_after].
+    destruct (Z.ltb_spec 0 opa) as [Hpos|Hz]; cbn [andb].
+    + destruct (Z.eqb_spec (opa mod s) (tmb mod s)) as [E|E]; cbn [negb].
+      * repeat split; try lia; try (right; exact E).
+      * specialize (IH (opa - 1) ltac:(lia) ltac:(lia)). cbv zeta in IH.
+        destruct IH as (I1 & I2 & I3). split; [lia|]. split; [exact I2|].
+        intros v Hv. destruct (Z.eq_dec v opa) as [->|Hne]; [exact E|]. apply I3. lia.
+    + assert (opa = 0) by lia. subst. repeat split; try lia; try (left; reflexivity).
+Qed.
+
+(* EXPLICIT: OFM = floor((IFM + before + after - k_dilated) / stride) + 1.  Two classes are excluded, and both are
+   defects of the unchanged code (see StripeRefuteProofs): an OFM taller than the IFM (even kernel with full pads), and a
+   kernel smaller than (IFM mod stride, or stride), where needed_total_padding clips and the residue test goes wrong *)
+Lemma explicit_geom_ok H Ho k d s t b pad skirt kw sx W ep :
+  1 <= s -> 1 <= d -> 1 <= k -> 1 <= H -> 0 <= t -> 0 <= b -> t < d * (k - 1) + 1 ->
+  d * (k - 1) + 1 <= H + t + b -> Ho = (H + t + b - (d * (k - 1) + 1)) / s + 1 -> Ho <= H ->
+  (if H mod s =? 0 then s else H mod s) <= d * (k - 1) + 1 ->
+  p_top ep = t -> p_bottom ep = b ->
+  calc_padding_and_skirt PAD_EXPLICIT kw (d * (k - 1) + 1) sx s H W ep = Some (pad, skirt) ->
+  geom_ok (geom_of H Ho k d s pad skirt) /\ geom_sane (geom_of H Ho k d s pad skirt) /\ p_top pad = t.
+Proof.
+  intros Hs Hd Hk HH Ht Hb Htk Hfit HHo HoH Hm Ept Epb Hc.
+  unfold calc_padding_and_skirt in Hc. cbn in Hc. unfold calc_explicit_padding in Hc. rewrite Ept, Epb in Hc.
+  injection Hc as <- <-.
+  set (kd := d * (k - 1) + 1) in *. assert (1 <= kd) by (unfold kd; nia).
+  destruct (ntp_cases H s kd Hs HH) as (q & m & Hq & Hm1 & Hq0 & Hn & _).
+  assert (Hm' : (if H mod s =? 0 then s else H mod s) = m).
+  { destruct (Z.eqb_spec (H mod s) 0) as [E|E].
+    - destruct (Z.eq_dec m s) as [->|Hne]; [reflexivity|]. exfalso.
+      assert (H mod s = m) by (symmetry; apply (Z.mod_unique_pos _ _ q); lia). lia.
+    - destruct (Z.eq_dec m s) as [->|Hne].
+      + exfalso. apply E. replace H with (0 + (q + 1) * s) by lia. rewrite Z.mod_add by lia. apply Z.mod_0_l. lia.
+      + symmetry. apply (Z.mod_unique_pos _ _ q); lia. }
+  rewrite Hm' in Hm. rewrite Hn. rewrite (Z.max_l (kd - m) 0) by lia.
+  pose proof (Z.div_mod (H + t + b - kd) s ltac:(lia)) as Hdm. pose proof (Z.mod_pos_bound (H + t + b - kd) s ltac:(lia)) as Hmb.
+  assert (Hq1 : 0 <= (H + t + b - kd) / s) by (apply Z.div_pos; lia).
+  set (n := (H + t + b - kd) / s) in *. assert (HoN : Ho - 1 = n) by lia.
+  set (x := n * s + kd - t - H).
+  assert (Hx1 : x <= b) by (unfold x; lia). assert (Hx2 : b - s < x) by (unfold x; lia).
+  assert (Hxm : x mod s = (kd - m - t) mod s).
+  { replace x with ((kd - m - t) + (n - q) * s) by (unfold x; nia). apply Z.mod_add. lia. }
+  destruct (explicit_after_spec s (kd - m - t) ltac:(lia) (Z.to_nat b) b Hb ltac:(lia)) as (R1 & R2 & R3).
+  set (r := explicit_after (Z.to_nat b) b s (kd - m - t)) in *.
+  assert (Hr : r = Z.max 0 x).
+  { destruct (Z.lt_ge_cases 0 x) as [Hxp|Hxn].
+    - assert (x <= r). { destruct (Z.le_gt_cases x r); [assumption|]. exfalso. apply (R3 x); [lia|exact Hxm]. }
+      destruct R2 as [R2|R2]; [lia|].
+      destruct (Z.eq_dec r x) as [->|Hne]; [lia|]. exfalso. apply (mod_neq' r x s); [lia|]. rewrite R2, Hxm. reflexivity.
+    - destruct R2 as [R2|R2]; [lia|].
+      destruct (Z.eq_dec r 0) as [->|Hne]; [lia|]. exfalso. apply (mod_neq' r x s); [lia|]. rewrite R2, Hxm. reflexivity. }
+  unfold geom_ok, geom_sane, geom_of, g_kd.
+  cbn [g_in g_out g_k g_d g_s g_top g_bottom g_sk_t g_sk_b p_top p_bottom]. fold kd.
+  rewrite HoN. fold r. rewrite Hr. unfold x.
+  repeat split; try lia.
+Qed.
+
+(* satisfiable: PAD (1,1) fused into a 3x3 stride-2 convolution on 8 rows *)
+Example explicit_geom_example :
+  exists pad skirt,
+    calc_padding_and_skirt PAD_EXPLICIT 3 3 2 2 8 8 {| p_top := 1; p_left := 1; p_bottom := 1; p_right := 1 |} = Some (pad, skirt) /\
+    geom_ok (geom_of 8 4 3 1 2 pad skirt) /\ p_bottom pad = 0.
+Proof.
+  eexists _, _. split; [vm_compute; reflexivity|].
+  split; [|vm_compute; reflexivity].
+  eapply (explicit_geom_ok 8 4 3 1 2 1 1 _ _ 3 2 8 {| p_top := 1; p_left := 1; p_bottom := 1; p_right := 1 |});
+    try lia; try reflexivity; vm_compute; try reflexivity; discriminate.
+Qed.
